@@ -7,6 +7,7 @@
 //   plus: shared key, inputs and generator untouched by evaluation (hash before/after).
 #include "scen.h"
 #include <algorithm>
+#include <pthread.h>
 #include <numeric_functions.h>
 #include <polynomials_arithmetic.h>
 
@@ -31,6 +32,9 @@ static Plan gen_conc(uint64_t seed, const Op &opts) {
     p.cfg.seti("tasks", W).seti("inputs", nin);
     p.cfg.seti("loader", r.bern(opts.getd("ploader", 0.15)) ? 1 : 0);   // a loader task imports the key and exits before workers use it
     p.cfg.seti("churn", r.bern(opts.getd("pchurn", 0.25)) ? 1 : 0);      // every op of a task runs in a short-lived child thread
+    // key generation, input encryption and the sequential reference run in a short-lived set-up thread that has exited before the
+    // tasks start: the first thread of the process to touch the FFT layer is then NOT the longest-lived one
+    p.cfg.seti("setup_thread", r.bern(opts.getd("psetup", 0.3)) ? 1 : 0);
     sched_to_plan(p, r, W);
     int maxops = (int) opts.geti("maxops", 3);
     double phist = opts.getd("phist", 0.35);
@@ -137,30 +141,40 @@ static void run_op(const Op &o, Shared &sh, TaskState &ts, const TFheGateBootstr
     ts.hashes.push_back(obs::hash_lwe(out, kc->n));
 }
 
+struct SetupArgs { std::function<void()> fn; };
+static void *setup_main(void *v) { ((SetupArgs *) v)->fn(); return nullptr; }
+
 static void exec_conc(const Plan &p, RunResult &r) {
     ParamSpec sp = ParamSpec::parse(p.cfg.gets("spec"));
     Shared sh;
-    sh.kc = get_key(sp, p.cfg.getu("kseed"));
-    ParamSpec s2; s2.name = "S"; s2.n = 5; s2.k = sp.k == 1 ? 2 : 1; s2.l = 3; s2.Bgbit = 8; s2.t = 4; s2.basebit = 3; s2.a_ks = 1e-7; s2.a_bk = 1e-9;
-    sh.kc2 = get_key(s2, 99);
-    sh.ck = sh.kc->ck;
-    KeyCtx *kc = sh.kc;
-    lib_seed(mix64(p.seed, 0xc0c));
+    KeyCtx *kc = nullptr;
     int W = (int) p.cfg.geti("tasks"), nin = (int) p.cfg.geti("inputs");
     if (W < 1 || nin < 1) return;
-    for (int i = 0; i < nin; i++) { LweSample *c = new_gate_bootstrapping_ciphertext(kc->params); bootsSymEncrypt(c, i & 1, kc->sk); sh.inputs.push_back(c); }
-    bool need_bytes = p.cfg.geti("loader") != 0;
-    for (auto &o : p.ops) if (o.geti("hist") == H_IMPORT) need_bytes = true;
-    if (need_bytes) {
-        Obj ko; ko.kind = K_CLOUDKEY; ko.p = (void *) sh.ck; ko.owned = false;
-        WriteLog log; WireCfg wc; wc.transport = 1; wc.wbuf = 65536; export_via(ko, wc, &log); sh.key_bytes.swap(log.bytes);
-    }
-    // per-task op lists
     std::vector<std::vector<const Op *>> tops((size_t) W);
     for (auto &o : p.ops) { int t = (int) o.geti("t"); if (t >= 0 && t < W) tops[(size_t) t].push_back(&o); }
-    // ---- sequential reference: one thread, nothing else running, no histories
     std::vector<TaskState> ref((size_t) W), got((size_t) W);
-    for (int t = 0; t < W; t++) for (auto *o : tops[(size_t) t]) run_op(*o, sh, ref[(size_t) t], sh.ck, false);
+    auto setup = [&]() {
+        sh.kc = get_key(sp, p.cfg.getu("kseed"));
+        ParamSpec s2; s2.name = "S"; s2.n = 5; s2.k = sp.k == 1 ? 2 : 1; s2.l = 3; s2.Bgbit = 8; s2.t = 4; s2.basebit = 3; s2.a_ks = 1e-7; s2.a_bk = 1e-9;
+        sh.kc2 = get_key(s2, 99);
+        sh.ck = sh.kc->ck;
+        kc = sh.kc;
+        lib_seed(mix64(p.seed, 0xc0c));
+        for (int i = 0; i < nin; i++) { LweSample *c = new_gate_bootstrapping_ciphertext(kc->params); bootsSymEncrypt(c, i & 1, kc->sk); sh.inputs.push_back(c); }
+        bool need_bytes = p.cfg.geti("loader") != 0;
+        for (auto &o : p.ops) if (o.geti("hist") == H_IMPORT) need_bytes = true;
+        if (need_bytes) {
+            Obj ko; ko.kind = K_CLOUDKEY; ko.p = (void *) sh.ck; ko.owned = false;
+            WriteLog log; WireCfg wc; wc.transport = 1; wc.wbuf = 65536; export_via(ko, wc, &log); sh.key_bytes.swap(log.bytes);
+        }
+        // ---- sequential reference: one thread, nothing else running, no histories
+        for (int t = 0; t < W; t++) for (auto *o : tops[(size_t) t]) run_op(*o, sh, ref[(size_t) t], sh.ck, false);
+    };
+    if (p.cfg.geti("setup_thread")) {
+        SetupArgs sa{setup}; pthread_t th; pthread_attr_t at; pthread_attr_init(&at); pthread_attr_setstacksize(&at, 8 << 20);
+        pthread_create(&th, &at, setup_main, &sa); pthread_join(th, nullptr); pthread_attr_destroy(&at);
+        r.probes.add("setup_in_exited_thread");
+    } else setup();
     uint64_t cloud0 = obs::hash_cloud(sh.ck), gen0 = obs::hash_generator();
     std::vector<uint64_t> in0; for (auto *c : sh.inputs) in0.push_back(obs::hash_lwe(c, kc->n));
     bool anykeygen = false; for (auto &o : p.ops) if (o.geti("hist") == H_KEYGEN) anykeygen = true;
